@@ -101,9 +101,9 @@ def run(tier, seed):
     o = vlib.Outcome(pid, tier, seed)
     thorough = tier == "thorough"
     # design check: untimed micro-configuration with NoHonestUnjust (producer getJustifiedQrc vs verifier agree)
-    r = vlib.tlc(pid, qc.FAMILY, "QBFTMC", "QBFTMC_H3q.cfg" if not thorough else "QBFTMC_H3r1.cfg", timeout=1500)
+    r = vlib.tlc(pid, qc.FAMILY, "QBFTMC", "QBFTMC_H3s.cfg" if not thorough else "QBFTMC_H3r1.cfg", timeout=1500)
     vlib.require_mc_ok(r, "QBFTMC")
-    o.add_mc("QBFTMC_H3q" if not thorough else "QBFTMC_H3r1", r)
+    o.add_mc("QBFTMC_H3s" if not thorough else "QBFTMC_H3r1", r)
     en = enumerate_n4(seed, thorough)
     if not thorough:
         rr = vlib.rng(seed, "c04/pick")
